@@ -366,12 +366,13 @@ Definition d_order_last (k : str) : M dst unit := on_keys (os_order_last k).
 Definition d_order_before (k r : str) : M dst unit := on_keys (os_order_before k r).
 Definition d_order_after (k r : str) : M dst unit := on_keys (os_order_after k r).
 
-(** sort_fields(): self.__keys = OrderedSet(sorted(self.__keys, key=str.lower)).
-    The new set (new list, new nodes) is complete before it is assigned. *)
-Definition d_sort_fields : M dst unit :=
+(** sort_fields(key): self.__keys = OrderedSet(sorted(self.__keys, key=key)); the key
+    function is applied to the keys as spelled.  The new set (new list, new nodes) is
+    complete before it is assigned. *)
+Definition d_sort_fields (sk : sortkey) : M dst unit :=
   mdo ks <- d_iter;
   fun s =>
-    match os_extend (sort_by lower ks) (fst s, os_empty) with
+    match os_extend (sort_by (sort_key lower sk) ks) (fst s, os_empty) with
     | (Ok _, (h', set')) => (Ok tt, (h', mkD set' (d_vals (snd s))))
     | (Err e, (h', _)) => (Err e, (h', snd s))
     end.
@@ -527,7 +528,7 @@ Definition step (w : world) (x : op) : out * world :=
   | OLast o k => run_on o (d_order_last k) (fun _ => RNone) w
   | OBefore o k r => run_on o (d_order_before k r) (fun _ => RNone) w
   | OAfter o k r => run_on o (d_order_after k r) (fun _ => RNone) w
-  | OSort o => run_on o d_sort_fields (fun _ => RNone) w
+  | OSort o sk => run_on o (d_sort_fields sk) (fun _ => RNone) w
   | ODump o => run_on o d_dump RStr w
   | OCopy o =>
       match nth_error (w_objs w) o with
